@@ -1,7 +1,7 @@
 (** C14 — depth-first visits, topological sort and the acyclicity test are exact.
     Statements and [Print Assumptions] only. *)
 From WG Require Import Base.Prelude Visits.Dfs Visits.DfsStatements Visits.DfsFacts
-  Visits.DfsWfFacts Visits.DfsTopoFacts Visits.DfsCheckFacts.
+  Visits.DfsWfFacts Visits.DfsTopoFacts Visits.DfsCheckFacts Visits.DfsSpanFacts.
 Local Open Scope N_scope.
 
 (** the fuel n + m + |roots| + 1 never runs out, for every graph, filter, root sequence
@@ -34,6 +34,12 @@ Print Assumptions C14_wf_events_sound.
 Theorem C14_on_stack_iff_ancestor : S_on_stack_iff_ancestor.
 Proof. exact on_stack_iff_ancestor. Qed.
 Print Assumptions C14_on_stack_iff_ancestor.
+
+(** without filter and from fresh marks, every flavour previsits exactly the nodes
+    reachable from the roots, each once (spanning forest of the reachable set) *)
+Theorem C14_spanning : S_spanning.
+Proof. exact spanning. Qed.
+Print Assumptions C14_spanning.
 
 (** top_sort fills exactly its n cells with a permutation of the nodes *)
 Theorem C14_top_sort_perm : S_top_sort_perm.
